@@ -51,8 +51,9 @@ type Report struct {
 	Exhaustive  bool
 	Extra       map[string]any
 	// Alias maps rule ids while a shared rule runs on behalf of another property (e.g. R07.2 → R10.4).
-	Alias  map[string]string
-	broken []string
+	Alias      map[string]string
+	broken     []string
+	minChecked bool
 }
 
 // NewReport creates a report.
@@ -97,6 +98,31 @@ func (r *Report) alias(rule string) string {
 	}
 	return rule
 }
+
+// CheckMinimums applies the vacuity guard (idempotent).
+func (r *Report) CheckMinimums() {
+	if r.minChecked {
+		return
+	}
+	r.minChecked = true
+	perRule := map[string]int{}
+	for _, o := range r.Obls {
+		perRule[o.Rule]++
+	}
+	var ids []string
+	for id := range r.MinInst {
+		ids = append(ids, id)
+	}
+	sort.Strings(ids)
+	for _, id := range ids {
+		if perRule[id] < r.MinInst[id] {
+			r.Broken(fmt.Sprintf("rule %s matched %d instances, expected at least %d (vacuity guard)", id, perRule[id], r.MinInst[id]))
+		}
+	}
+}
+
+// BrokenReasons lists the infrastructure failures recorded so far.
+func (r *Report) BrokenReasons() []string { return r.broken }
 
 // Broken marks the run as broken for an infrastructure reason.
 func (r *Report) Broken(why string) { r.broken = append(r.broken, why) }
@@ -148,15 +174,10 @@ func (r *Report) Finish(verifDir string, findings []Finding) int {
 			known[f.Key] = f
 		}
 	}
-	// vacuity guard
+	r.CheckMinimums()
 	perRule := map[string]int{}
 	for _, o := range r.Obls {
 		perRule[o.Rule]++
-	}
-	for id, min := range r.MinInst {
-		if perRule[id] < min {
-			r.Broken(fmt.Sprintf("rule %s matched %d instances, expected at least %d (vacuity guard)", id, perRule[id], min))
-		}
 	}
 	var viol, undec, disch, knownN int
 	var violObls []*Obligation
